@@ -55,11 +55,29 @@
   OBLIGATION c06_request_valid_false
   With that side condition the request level holds for ALL valid documents:
   OBLIGATION c06_request_valid_wf
+  `ValidationMode::Fast` (`runMode true`): no rule looks at argument values, the generated `parse`
+  functions alone decide.  The toggle-free `parse` of a supplied value (`parseK`: an object with
+  an undeclared key is refused) refuses EXACTLY what the specification's input coercion refuses,
+  for every table, type and value that is a map — no "declared keys" hypothesis any more:
+  OBLIGATION c06_fast_mode_refines_spec
+  an argument given as an arbitrary (valid or malformed) variable-free literal:
+  OBLIGATION c06_fast_mode_argument
+  in either mode every value handed to a resolver is a value of the declared Rust type:
+  OBLIGATION c06_never_mistyped
+  valid documents behave in Fast mode exactly as specified:
+  OBLIGATION c06_fast_mode_request_valid
+  the pinned generated struct `parse` ignores undeclared keys (toggle `undeclaredKeysIgnored`):
+  OBLIGATION c06_witness_undeclared_keys_ignored
+  what the check must notice — the seeded variant of the generated oneof `parse` (first declared
+  variant present wins; /verif/seeded/C06-r3) accepts `{a: 1, b: "x"}`, the model and the
+  specification refuse it, in Fast mode and beside a variable without runtime value:
+  OBLIGATION c06_witness_oneof_first_present
 -/
 import AGV.Lemmas.CoerceTyped
 import AGV.Lemmas.CoerceRequest
 import AGV.Lemmas.CoerceReqProof
 import AGV.Lemmas.CoerceNested
+import AGV.Lemmas.CoerceFast
 
 namespace AGV.Props.C06
 open AGV.Core
@@ -164,9 +182,9 @@ theorem c06_explicit_null_argument (T : Table) (defs : List VarDef) (raw vars : 
     paramValue Defects.none T defs raw provided a
       = if a.ty.gql.isNonNull then none else some RV.null := by
   rcases h with h | ⟨n, h, hn⟩
-  · simp [paramValue, h, resolve, parseD, parseWith, parseNull_repaired]
+  · simp [paramValue, h, resolve, parseK_null, parseD, parseWith, parseNull_repaired]
   · have hr : resolve defs raw (.var n) = some .null := by simp [resolve, hv, hn]
-    simp [paramValue, h, hr, parseD, parseWith, parseNull_repaired]
+    simp [paramValue, h, hr, parseK_null, parseD, parseWith, parseNull_repaired]
 
 -- ------------------------------------------------------------------ defects of the pinned tree
 
@@ -371,14 +389,16 @@ def opUnknownKey : OpDef :=
     value (`into_const_with` fails), so nothing checks the keys of `{a: $v, zzz: 1}`; the
     generated `parse` ignores the undeclared key and the resolver is invoked, where the
     specification fails the field.  Repaired: the literal is checked around the variable and the
-    request is refused. -/
+    request is refused.  (With the rule's gap alone and a generated `parse` that refuses undeclared
+    keys, the field fails during execution.) -/
 theorem c06_witness_literal_unchecked_beside_unsupplied_variable :
-    (run { literalUncheckedBesideVar := true } T4 opUnknownKey []).fields
+    (run { literalUncheckedBesideVar := true, undeclaredKeysIgnored := true } T4 opUnknownKey []).fields
         = [("f", .seen [("x", .obj [("a", .null)])])]
     ∧ request T4 opUnknownKey [] = some [("f", none)]
+    ∧ (run { literalUncheckedBesideVar := true } T4 opUnknownKey []).fields = [("f", .err)]
     ∧ (run Defects.none T4 opUnknownKey []).status = .reqerr
     ∧ (run Defects.none T4 opUnknownKey []).fields = [("f", .notInvoked)] := by
-  refine ⟨rfl, rfl, rfl, rfl⟩
+  refine ⟨rfl, rfl, rfl, rfl, rfl⟩
 
 /-- the table's schema defaults denote the Rust defaults -/
 def defaultsOk (T : Table) : Prop :=
@@ -670,7 +690,7 @@ theorem c06_subst_coerce (T : Table) (hwf : wfTable2 T = true) (hdef : defaultsO
     (dv : DValue) (rty : RTy) (hd : Bool) (hlit : litOk T defs rty.gql hd dv = true) :
     (resolve defs raw dv = none → subst vars dv = none) ∧
     (∀ x, resolve defs raw dv = some x → ∃ y, subst vars dv = some y ∧
-      parseD Defects.none T rty x = (coerce T false rty.gql y).map (view T rty)) := by
+      parseK Defects.none T rty x = (coerce T false rty.gql y).map (view T rty)) := by
   have C : VarCtx T defs raw vars := ⟨hnd, hcv, hkeys, hdk⟩
   refine ⟨(lit_sim T hwf hdc defs raw vars C dv rty hd hlit).1, ?_⟩
   intro x hx
@@ -830,5 +850,171 @@ example : wfTable2 T8 = true ∧ defaultsOk T8 ∧ defaultsCoerced T8 ∧ docOk 
   intro p hp
   simp only [List.mem_cons, List.mem_nil_iff, or_false] at hp
   subst hp; exact ⟨rfl, rfl⟩
+
+-- ------------------------------------------------------------------ ValidationMode::Fast
+
+/-- **Fast mode: `parse` alone is the specification's input coercion.**  For every well-formed
+    table whose schema defaults denote the Rust defaults, every Rust type and EVERY raw value that
+    is a map (object literals with pairwise distinct keys — nothing else is assumed: unknown
+    keys, missing fields, wrong leaf kinds, oneof objects with 0, 2, 3 members or a null member,
+    wrong list elements, at any depth): the toggle-free `InputType::parse` of a supplied value,
+    with no validation before it, succeeds exactly when the specification's input coercion for
+    the declared GraphQL type does, and then delivers the Rust view of the coerced value. -/
+theorem c06_fast_mode_refines_spec (T : Table) (rty : RTy) (v : GValue) (hwf : wfTable T = true)
+    (hd : ∀ n o fs f d, T.find? n = some (.input o fs) → f ∈ fs → f.default = some d →
+        fieldDefault Defects.none T f d = some (view T f.ty d))
+    (hk : distinctKeys v = true) :
+    parseK Defects.none T rty v = (coerce T true rty.gql v).map (view T rty) :=
+  parseK_value T hwf hd rty v hk
+
+/-- the hypotheses are met by `T2`; an undeclared key at depth 2, a oneof object with two members
+    and one with a null member are refused by `parse` and by the specification alike, the
+    well-formed value is parsed to its view -/
+example : wfTable T2 = true ∧
+    distinctKeys (.obj [("y", .obj [("c", .int 1), ("z", .int 1)])]) = true ∧
+    parseK Defects.none T2 (.named "O") (.obj [("y", .obj [("c", .int 1), ("z", .int 1)])]) = none ∧
+    parseK Defects.none T2 (.named "O") (.obj [("x", .int 1), ("y", .obj [("c", .int 1)])]) = none ∧
+    parseK Defects.none T2 (.named "O") (.obj [("x", .null)]) = none ∧
+    parseK Defects.none T2 (.named "O") (.obj [("y", .obj [("c", .int 1)])]) =
+      some (.obj [("y", .obj [("a", .null), ("b", .int 5), ("c", .list [.list [.int 1]])])]) :=
+  ⟨by decide, by decide, by rfl, by rfl, by rfl, by rfl⟩
+
+/-- **Fast mode, one argument.**  An argument given as ANY variable-free literal whose object
+    literals have distinct keys — valid or malformed: `get_param_value` (toggle-free) succeeds
+    exactly when the specification's input coercion of the literal does and hands the resolver
+    the Rust view of the coerced value; otherwise the field fails and is not invoked.  (`coerce`
+    in its lenient form that also takes a string naming an enum value, as the library does in
+    document literals too: `c06_request_false`.) -/
+theorem c06_fast_mode_argument (T : Table) (hwf : wfTable T = true)
+    (hd : ∀ n o fs f d, T.find? n = some (.input o fs) → f ∈ fs → f.default = some d →
+        fieldDefault Defects.none T f d = some (view T f.ty d))
+    (defs : List VarDef) (raw : List (String × GValue)) (provided : List (String × DValue)) (a : InField)
+    (dv : DValue) (hl : lookup provided a.name = some dv) (hnv : noVars dv = true)
+    (hk : distinctKeysD dv = true) :
+    paramValue Defects.none T defs raw provided a =
+      (coerce T true a.ty.gql (constOf dv)).map (view T a.ty) :=
+  paramValue_const T hwf hd defs raw provided a dv hl hnv hk
+
+/-- **A value that does not match the declared type is never passed to a resolver** — in
+    either validation mode, for every well-formed table, EVERY operation (valid or not) and all
+    variable values: whenever the toggle-free model invokes a root field, it does so with one
+    value per declared argument, in order, each a value of the argument's Rust type (`typed`:
+    32-bit integers, enum values of the enum, exactly one non-null member for a oneof object,
+    all fields of a struct, `null`/`undef` only under `Option`/`MaybeUndefined`). -/
+theorem c06_never_mistyped (T : Table) (hwf : wfTable T = true) (fast : Bool) (op : OpDef)
+    (raw : List (String × GValue)) (key : String) (vs : List (String × RV))
+    (h : (key, Outcome.seen vs) ∈ (runMode fast Defects.none T op raw).fields) :
+    ∃ name args sig, (key, name, args) ∈ rootFields op ∧ T.field? name = some sig ∧ argsTyped T sig.args vs :=
+  runMode_typed T hwf fast op raw key vs h
+
+/-- `{ f(x: {a: 1, zzz: 2}) }` — an undeclared key, nothing else wrong -/
+def opUnknownKeyConst : OpDef :=
+  { ty := .query, name := none, vars := [], dirs := [],
+    sels := [.field none "f" [("x", .obj [("a", .int 1), ("zzz", .int 2)])] [] [] ⟨0, 0⟩] }
+
+/-- a resolver is invoked in Fast mode (non-vacuity of `c06_never_mistyped`) -/
+example : wfTable T4 = true ∧
+    (runMode true Defects.none T4 { opUnknownKeyConst with
+        sels := [.field none "f" [("x", .obj [("a", .int 1)])] [] [] ⟨0, 0⟩] } []).fields
+      = [("f", .seen [("x", .obj [("a", .int 1)])])] := ⟨by decide, rfl⟩
+
+/-- **The pinned generated struct `parse` ignores undeclared keys** (`obj.get(name)` per declared
+    field).  Strict validation refuses `{a: 1, zzz: 2}`; in `ValidationMode::Fast` nothing stands
+    before `parse` and the resolver is invoked with `{a: 1}`, where the specification fails the
+    field.  Toggle-free: `parse` refuses the object, the field fails, the resolver is not invoked. -/
+theorem c06_witness_undeclared_keys_ignored :
+    (runMode true { undeclaredKeysIgnored := true } T4 opUnknownKeyConst []).fields
+        = [("f", .seen [("x", .obj [("a", .int 1)])])]
+    ∧ request T4 opUnknownKeyConst [] = some [("f", none)]
+    ∧ (runMode true Defects.none T4 opUnknownKeyConst []).fields = [("f", .err)]
+    ∧ (runMode false { undeclaredKeysIgnored := true } T4 opUnknownKeyConst []).fields = [("f", .notInvoked)] := by
+  refine ⟨rfl, rfl, rfl, rfl⟩
+
+/-- **Fast mode, valid documents.**  Under the hypotheses of `c06_request_valid_wf`, the
+    toggle-free model in `ValidationMode::Fast` meets the same request-level statement: skipping
+    the validation rules loses nothing on a valid document. -/
+theorem c06_fast_mode_request_valid (T : Table) (op : OpDef) (raw : List (String × GValue))
+    (hwf : wfTable2 T = true) (hdef : defaultsOk T) (hdc : defaultsCoerced T) (hdoc : docOk T op = true)
+    (hsmall : ∀ p ∈ raw, intsSmall p.2 = true) (hkeys : ∀ p ∈ raw, distinctKeys p.2 = true) :
+    match request T op raw with
+    | none => (runMode true Defects.none T op raw).status ≠ .ok ∧
+        ∀ f ∈ (runMode true Defects.none T op raw).fields, f.2 = .err ∨ f.2 = .notInvoked
+    | some fs =>
+      ((runMode true Defects.none T op raw).status = .ok ↔ fs.all (·.2.isSome) = true) ∧
+      ∀ p ∈ fs.zip (runMode true Defects.none T op raw).fields,
+        p.1.1 = p.2.1 ∧
+        match p.1.2 with
+        | some args => p.2.2 = .seen args ∨ (fs.any (·.2.isNone) ∧ (p.2.2 = .err ∨ p.2.2 = .notInvoked))
+        | none => p.2.2 = .err ∨ p.2.2 = .notInvoked := by
+  have H : ReqBase T op raw := ⟨hwf, hdef.1, hdef.2, hdoc, hsmall, hkeys⟩
+  have hrm : runMode true Defects.none T op raw = runFast Defects.none T op raw := rfl
+  rw [hrm]
+  cases hcv : coerceVars T op.vars raw with
+  | none =>
+    have hreq : request T op raw = none := by simp [request, hcv]
+    obtain ⟨h1, h2⟩ := H.fast_none hcv
+    rw [hreq]
+    simp only [h1, h2]
+    refine ⟨by simp, ?_⟩
+    intro f hf
+    simp only [List.mem_map] at hf
+    obtain ⟨r, _, rfl⟩ := hf
+    exact Or.inr rfl
+  | some vars =>
+    obtain ⟨h1, h2⟩ := H.fast_some vars hcv (H.root_eq hdc vars hcv)
+    rw [request_eq T op raw vars hcv]
+    refine ⟨h1, ?_⟩
+    intro p hp
+    obtain ⟨ha, hb, hc⟩ := h2 p hp
+    refine ⟨ha, ?_⟩
+    split
+    · rename_i args hargs; exact hb args hargs
+    · rename_i hnone; exact hc hnone
+
+/-- the hypotheses are met by `T8`, `opNested` and `v = {c: 2}` (as for `c06_request_valid_wf`) -/
+example : (runMode true Defects.none T8 opNested [("v", .obj [("c", .int 2)])]).fields =
+    (run Defects.none T8 opNested [("v", .obj [("c", .int 2)])]).fields := rfl
+
+-- ------------------------------------------------------------------ the seeded oneof parse
+
+/-- `Pick { A(i32), B(String) }`, a struct `Outer { pick: Pick, tag: Option<String> }`, root
+    fields `pick(input: Pick)` and `outer(input: Outer)` — the schema of /verif/seeded/C06-r3/demo.rs -/
+def TP : Table :=
+  { types := [("Int", .scalar), ("String", .scalar),
+              ("Pick", .input true [⟨"a", .opt (.named "Int"), none⟩, ⟨"b", .opt (.named "String"), none⟩]),
+              ("Outer", .input false [⟨"pick", .named "Pick", none⟩, ⟨"tag", .opt (.named "String"), none⟩])],
+    fields := [⟨"pick", [⟨"input", .named "Pick", none⟩]⟩, ⟨"outer", [⟨"input", .named "Outer", none⟩]⟩] }
+
+/-- `{ pick(input: {a: 1, b: "x"}) }` -/
+def opTwoMembers : OpDef :=
+  { ty := .query, name := none, vars := [], dirs := [],
+    sels := [.field none "pick" [("input", .obj [("a", .int 1), ("b", .str "x")])] [] [] ⟨0, 0⟩] }
+
+/-- `query($t: String){ outer(input: {pick: {a: 1, b: "x"}, tag: $t}) }` without a value for `t` -/
+def opTwoMembersBesideVar : OpDef :=
+  { ty := .query, name := none, vars := [⟨"t", .named "String", none⟩], dirs := [],
+    sels := [.field none "outer" [("input", .obj [("pick", .obj [("a", .int 1), ("b", .str "x")]), ("tag", .var "t")])]
+      [] [] ⟨0, 0⟩] }
+
+/-- **What the check must notice.**  The seeded variant of the generated `OneofObject::parse`
+    (`oneofFirstPresent`: the exactly-one-member test dropped) accepts `{a: 1, b: "x"}` as `A(1)`;
+    the specification refuses the object, and so does the model of the generated `parse` — with
+    ALL pinned toggles on — both where nothing stands before it: in `ValidationMode::Fast`, and in
+    Strict mode beside a variable without runtime value (ArgumentsOfCorrectType skips the
+    argument).  An implementation that invokes the resolver there differs from the model and
+    from the specification: VIOLATION. -/
+theorem c06_witness_oneof_first_present :
+    oneofFirstPresent (parseD Defects.none TP)
+        [⟨"a", .opt (.named "Int"), none⟩, ⟨"b", .opt (.named "String"), none⟩]
+        [("a", .int 1), ("b", .str "x")] = some (.obj [("a", .int 1)])
+    ∧ coerce TP true (RTy.named "Pick").gql (.obj [("a", .int 1), ("b", .str "x")]) = none
+    ∧ parseD Defects.pinned TP (.named "Pick") (.obj [("a", .int 1), ("b", .str "x")]) = none
+    ∧ request TP opTwoMembers [] = some [("pick", none)]
+    ∧ (runMode true Defects.pinned TP opTwoMembers []).fields = [("pick", .err)]
+    ∧ (runMode false Defects.pinned TP opTwoMembers []).fields = [("pick", .notInvoked)]
+    ∧ request TP opTwoMembersBesideVar [] = some [("outer", none)]
+    ∧ (runMode false Defects.pinned TP opTwoMembersBesideVar []).fields = [("outer", .err)]
+    ∧ (runMode true Defects.pinned TP opTwoMembersBesideVar []).fields = [("outer", .err)] := by
+  refine ⟨rfl, rfl, rfl, rfl, rfl, rfl, rfl, rfl, rfl⟩
 
 end AGV.Props.C06
